@@ -206,8 +206,9 @@ func (e *Engine) verifyFunc(fn *ssa.Function, fc *FuncContract) (rep *FuncReport
 	c := x.ctx
 	x.assumeAxioms(nil)
 	st := &State{heap: map[string]Term{}, base: map[string]Term{}, locals: map[ssa.Value]*Value{}}
-	st.alloc = c.Fresh("alloc0", SInt)
+	st.alloc = c.FreshGlobal("alloc0", SInt)
 	c.Assume(Le(IntLit(1), st.alloc))
+	x.entryAlloc = st.alloc
 	fr := x.newFrame(fn, nil, fc)
 	fr.argVars = map[string]*Value{}
 	for _, p := range fn.Params {
